@@ -25,6 +25,10 @@ def pytest_configure(config):
         from hv.checks import c01
 
         c01.frame_contract(_ctx)
+    if "purity" in mons:
+        from hv.mon import purity
+
+        purity.install_purity_wrappers(_ctx)
     if "invariant" in mons:
         from hv.checks import c14
 
